@@ -295,10 +295,15 @@ pub fn encode_into_tail<W: Write + Seek>(w: W, cfg: &EncCfg, front: Front, pcm: 
                     wr.write_all(bytes).map_err(eio("write"))?;
                 } else {
                     let mut pos = 0;
-                    for s in splits {
+                    for (k, s) in splits.iter().enumerate() {
                         let end = (pos + s).min(bytes.len());
                         wr.write_all(&bytes[pos..end]).map_err(eio("write"))?;
                         pos = end;
+                        // `Write::flush` between calls (what a buffered copy loop or `io::copy`
+                        // wrapper may do at any time) must not influence the stream
+                        if k % 2 == 1 {
+                            wr.flush().map_err(eio("flush"))?;
+                        }
                     }
                     if pos < bytes.len() {
                         wr.write_all(&bytes[pos..]).map_err(eio("write"))?;
@@ -393,6 +398,10 @@ pub struct Decode {
     pub polls_after_eos_with_data: u32,
     /// samples delivered but not kept (discard mode)
     pub delivered: u64,
+    /// samples handed out by up to three further polls AFTER the reader reported an error
+    /// (channel reader and sample reader; only meaningful for inputs that simply end, where
+    /// nothing genuine can follow)
+    pub samples_after_error: u64,
 }
 
 /// When set, `decode_all*` counts delivered samples instead of keeping them
@@ -432,7 +441,7 @@ pub fn decode_all<R: Read>(r: R, kind: Rd, n: usize) -> Decode {
 /// As `decode_all`, but stops (error "OUTPUT-CAP") once more than `cap` samples were delivered.
 pub fn decode_all_capped<R: Read>(r: R, kind: Rd, n: usize, cap: usize) -> Decode {
     let n = n.max(1);
-    let mut out = Decode { meta: None, samples: vec![], error: None, polls_after_eos_with_data: 0, delivered: 0 };
+    let mut out = Decode { meta: None, samples: vec![], error: None, polls_after_eos_with_data: 0, delivered: 0, samples_after_error: 0 };
     match kind {
         Rd::SampleRead | Rd::SampleFill | Rd::SampleToEnd | Rd::SampleIter => {
             let mut rd = match FlacSampleReader::new(r) {
@@ -457,6 +466,11 @@ pub fn decode_all_capped<R: Read>(r: R, kind: Rd, n: usize, cap: usize) -> Decod
                             }
                             Err(e) => {
                                 out.error = Some(crate::api::show(&e));
+                                for _ in 0..3 {
+                                    if let Ok(k) = rd.read(&mut buf) {
+                                        out.samples_after_error += k as u64;
+                                    }
+                                }
                                 return out;
                             }
                         }
@@ -637,6 +651,13 @@ pub fn decode_all_capped<R: Read>(r: R, kind: Rd, n: usize, cap: usize) -> Decod
                     }
                     Err(e) => {
                         out.error = Some(crate::api::show(&e));
+                        for _ in 0..3 {
+                            if let Ok(b) = rd.fill_buf() {
+                                out.samples_after_error += b.iter().map(|c| c.len() as u64).sum::<u64>();
+                                let l = b.first().map(|c| c.len()).unwrap_or(0);
+                                rd.consume(l);
+                            }
+                        }
                         return out;
                     }
                 };
